@@ -1,5 +1,5 @@
 (* C07 — proofs about Model/Install.v against Spec/InstallSpec.v. *)
-From Apko Require Import Base.Prelude Model.Install Spec.InstallSpec.
+From Apko Require Import Base.Prelude Base.C07Lib Generated.C07Install Generated.FsConsts Model.Install Spec.InstallSpec.
 Open Scope string_scope. Open Scope list_scope.
 
 (* ---- the two decision procedures are the rule table ---------------------- *)
@@ -296,14 +296,17 @@ Qed.
 
 (* pruning: a path with a recorded owner survives only in that owner's list *)
 Lemma prune_owner : forall ifs k files h i,
-  In h (prune ifs k files) -> if_get ifs (h_path h) = Some i -> k = i.
+  In h (prune ifs k files) -> h_kind h <> KDir -> if_get ifs (h_path h) = Some i -> k = i.
 Proof.
-  intros ifs k files h i H G. unfold prune in H. apply filter_In in H. destruct H as [_ H].
-  rewrite G in H. apply Nat.eqb_eq in H. auto.
+  intros ifs k files h i H Hk G. unfold prune in H. apply filter_In in H. destruct H as [_ H].
+  rewrite G in H. destruct (h_kind h); try (apply Nat.eqb_eq in H; auto). contradiction.
 Qed.
 Lemma prune_keeps_own : forall ifs k files h,
   In h files -> if_get ifs (h_path h) = Some k -> In h (prune ifs k files).
-Proof. intros. unfold prune. apply filter_In. split; [assumption|]. rewrite H0. apply Nat.eqb_refl. Qed.
+Proof.
+  intros. unfold prune. apply filter_In. split; [assumption|]. rewrite H0.
+  destruct (h_kind h); try apply Nat.eqb_refl. reflexivity.
+Qed.
 
 Theorem owner_invariant : forall b pkgs init f,
   no_sym_over_reg pkgs -> install b pkgs init = RDone f ->
@@ -313,14 +316,15 @@ Theorem owner_invariant : forall b pkgs init f,
       fs_get (f_fs f) p = Some (NFile (h_sum h) (h_mode h) (Some i) true) /\
       (* after pruning the path is listed under package i ... *)
       In h (prune (f_if f) i (nth i (f_files f) [])) /\
-      (* ... and under no other package *)
-      (forall k h', In h' (prune (f_if f) k (nth k (f_files f) [])) -> h_path h' = p -> k = i).
+      (* ... and under no other package (directory headers are never pruned: their
+         names end in "/" and are no keys of installedFiles) *)
+      (forall k h', In h' (prune (f_if f) k (nth k (f_files f) [])) -> h_kind h' <> KDir -> h_path h' = p -> k = i).
 Proof.
   intros b pkgs init f Hsym H p i G.
   destruct (install_owned b pkgs init f Hsym H p i G) as (h & A & B & C & D & F). cbn in F.
   exists h. repeat split; auto.
   - apply prune_keeps_own; [exact A | rewrite D; exact G].
-  - intros k h' Hin Hp. eapply prune_owner; [exact Hin | rewrite Hp; exact G].
+  - intros k h' Hin Hk' Hp. eapply prune_owner; [exact Hin | exact Hk' | rewrite Hp; exact G].
 Qed.
 
 (* ---- a Conflict decision is the error of the whole install ---------------- *)
@@ -471,7 +475,7 @@ Proof.
   rewrite Hdb in Hn. apply db_from_nth in Hn. cbn [Nat.add] in Hn. subst entries.
   apply db_entries_sub in Hin.
   destruct (if_get (f_if f) (h_path h)) as [j|] eqn:G; [right | left; reflexivity].
-  assert (k = j) by (eapply prune_owner; eauto). subst j.
+  assert (k = j) by (eapply prune_owner; eauto; rewrite Hk; discriminate). subst j.
   destruct (Hown (h_path h) k G) as (h0 & A & B & C & D & F). cbn in F.
   assert (Hfiles : In h (p_files (nth k pkgs no_pkg))).
   { apply Hsub. unfold prune in Hin. apply filter_In in Hin. tauto. }
@@ -640,16 +644,22 @@ Proof. intros. split; [apply app_eq_nil | intros [-> ->]; reflexivity]. Qed.
 Lemma tag_if_nil : forall b t, tag_if b t = [] <-> b = false.
 Proof. intros [|] t; cbn; split; intro; try reflexivity; discriminate. Qed.
 
-Theorem entry_validator_decides : forall b pre tree fm d,
-  check_entry b pre tree fm d = [] <-> EntryTrue tree d.
+Theorem entry_validator_decides : forall b pre tree fm al th d,
+  check_entry b pre tree fm al th d = [] <-> EntryTrue tree d.
 Proof.
-  intros b pre tree fm d. unfold check_entry, EntryTrue.
+  intros b pre tree fm al th d. unfold check_entry, EntryTrue.
   destruct (tree_lookup tree (d_path d)) as [n|];
-    [|split; [discriminate | intros (n & H & _); discriminate]].
+    [|split; [destruct (th (d_path d)); discriminate | intros (n & H & _); discriminate]].
   match goal with |- (if ?c then _ else _) = [] <-> _ => destruct c eqn:DirLink end.
   { (* a directory entry over a symbolic link is never true *)
     split; [discriminate|]. intros (n' & E & Hd & _). inv_ok E. exfalso.
     apply andb_true_iff in DirLink. destruct DirLink as [D1 D2]. apply tkind_eqb_eq in D2.
+    apply Hd in D1. congruence. }
+  match goal with |- (if ?c then _ else _) = [] <-> _ => destruct c eqn:DirReg end.
+  { (* nor is a directory entry over a regular file *)
+    split; [discriminate|]. intros (n' & E & Hd & _). inv_ok E. exfalso.
+    apply andb_true_iff in DirReg. destruct DirReg as [D1 _].
+    apply andb_true_iff in D1. destruct D1 as [D1 D2]. apply tkind_eqb_eq in D2.
     apply Hd in D1. congruence. }
   match goal with |- (if ?c then _ else _) = [] <-> _ => destruct c eqn:Stale end.
   - (* a stale entry under a symbolic link is never true *)
@@ -728,3 +738,601 @@ Proof.
   destruct (install_all b pkgs 0 {| s_fs := init; s_if := [] |} [] pkgs) as [[s all]|e s]; [exact (fun x => x)|].
   destruct e; try exact (fun x => x). intros _. apply (H s). reflexivity.
 Qed.
+
+(* ---- which nodes a step may replace ---------------------------------------- *)
+Definition repl (b : backend) (o : option node) : Prop :=
+  match o with
+  | None => True
+  | Some (NFile _ _ _ _) => True
+  | Some (NSym _ _ _) => is_lazy b = true
+  | _ => False
+  end.
+
+Inductive trans2 (b : backend) (i : nat) (h : hdr) (s s' : st) (app : bool) : Prop :=
+| T2Same : s' = s -> trans2 b i h s s' app
+| T2Grow : s_if s' = s_if s ->
+           (forall p n, fs_get (s_fs s) p = Some n -> fs_get (s_fs s') p = Some n) ->
+           (h_kind h = KDir \/ h_kind h = KLink) -> trans2 b i h s s' app
+| T2Set : s' = set_file s i h -> app = true -> (h_kind h = KReg \/ h_kind h = KSym) ->
+          repl b (fs_get (s_fs s) (h_path h)) -> trans2 b i h s s' app.
+
+Lemma step_trans2 : forall b pkgs i me s h s' app,
+  step b pkgs i me s h = IOk (s', app) -> trans2 b i h s s' app.
+Proof.
+  intros b pkgs i me s h s' app H. unfold step in H.
+  destruct (h_kind h) eqn:K.
+  - (* KReg *)
+    destruct (is_lazy b) eqn:Lz.
+    + unfold step_lazy_file in H. rewrite K in H. cbn match in H.
+      apply need_dir_ok in H.
+      destruct (fs_get (s_fs s) (h_path h)) as [x|] eqn:G.
+      * destruct x as [m|gs md [j|] dt|tg [j|] lk|]; try discriminate.
+        -- destruct (decide_lazy (nth j pkgs no_pkg) me gs (h_sum h)); try discriminate; inv_ok H;
+             [apply T2Same; reflexivity | apply T2Set; auto; rewrite G; exact I].
+        -- destruct dt; try discriminate. destruct (N.eqb gs (h_sum h)); try discriminate. inv_ok H. apply T2Same; reflexivity.
+        -- destruct (decide_lazy (nth j pkgs no_pkg) me tg (h_sum h)); try discriminate; inv_ok H;
+             [apply T2Same; reflexivity | apply T2Set; auto; rewrite G; exact Lz].
+      * inv_ok H. apply T2Set; auto. rewrite G. exact I.
+    + unfold step_stream_reg in H.
+      destruct (dir_state (s_fs s) (parent (h_path h))); try discriminate.
+      destruct (fs_get (s_fs s) (h_path h)) as [x|] eqn:G.
+      * destruct x as [m|gs md ow dt|tg ow lk|]; try discriminate.
+        destruct (decide_stream _ me (N.eqb gs (h_sum h))) as [[| |]| |]; try discriminate; inv_ok H;
+          [apply T2Same; reflexivity | apply T2Set; auto; rewrite G; exact I].
+      * inv_ok H. apply T2Set; auto. rewrite G. exact I.
+  - (* KDir *)
+    unfold step_dir in H.
+    destruct (mkdir_all (s_fs s) (prefixes (h_path h)) (perm_of (h_mode h))) as [m [e|]] eqn:M; try discriminate.
+    inv_ok H. apply T2Grow; [reflexivity| |auto]. intros p n G. cbn.
+    pose proof (mkdir_all_keeps (prefixes (h_path h)) (s_fs s) (perm_of (h_mode h)) p n G) as Hk.
+    rewrite M in Hk. exact Hk.
+  - (* KSym *)
+    destruct (is_lazy b) eqn:Lz.
+    + unfold step_lazy_file in H. rewrite K in H.
+      match type of H with (if ?c then _ else _) = _ => destruct c end.
+      * inv_ok H. apply T2Same; reflexivity.
+      * apply need_dir_ok in H.
+        destruct (fs_get (s_fs s) (h_path h)) as [x|] eqn:G.
+        -- destruct x as [m|gs md [j|] dt|tg [j|] lk|]; try discriminate.
+           ++ destruct (decide_lazy (nth j pkgs no_pkg) me gs (h_sum h)); try discriminate; inv_ok H;
+                [apply T2Same; reflexivity | apply T2Set; auto; rewrite G; exact I].
+           ++ destruct dt; try discriminate. destruct (N.eqb gs (h_sum h)); try discriminate. inv_ok H. apply T2Same; reflexivity.
+           ++ destruct (decide_lazy (nth j pkgs no_pkg) me tg (h_sum h)); try discriminate; inv_ok H;
+                [apply T2Same; reflexivity | apply T2Set; auto; rewrite G; exact Lz].
+        -- inv_ok H. apply T2Set; auto. rewrite G. exact I.
+    + unfold step_stream_sym in H. apply need_dir_ok in H.
+      destruct (fs_get (s_fs s) (h_path h)) as [x|] eqn:G.
+      * destruct x as [m|gs md ow dt|tg ow lk|]; try discriminate.
+        destruct (N.eqb tg (h_sum h)); try discriminate. inv_ok H. apply T2Same; reflexivity.
+      * inv_ok H. apply T2Set; auto. rewrite G. exact I.
+  - (* KLink *)
+    unfold step_link in H. apply need_dir_ok in H.
+    destruct (dir_state (s_fs s) (parent (h_link h))); try discriminate.
+    destruct (fs_get (s_fs s) (h_link h)) as [x|] eqn:G; try discriminate.
+    destruct x as [m|gs md ow dt|tg ow lk|]; try discriminate.
+    destruct (fs_get (s_fs s) (h_path h)) eqn:G2; try discriminate.
+    inv_ok H. apply T2Grow; [reflexivity| |auto]. intros p n Hp. cbn.
+    rewrite fs_get_set_other; [exact Hp|]. intro; subst p. congruence.
+Qed.
+
+(* a node that a step cannot replace is still there afterwards *)
+Lemma step_keeps : forall b pkgs i me s h s' app q n,
+  step b pkgs i me s h = IOk (s', app) ->
+  fs_get (s_fs s) q = Some n -> ~ repl b (Some n) ->
+  fs_get (s_fs s') q = Some n.
+Proof.
+  intros b pkgs i me s h s' app q n H G NR.
+  destruct (step_trans2 _ _ _ _ _ _ _ _ H) as [E|_ Hfs _|E _ _ R].
+  - subst s'. exact G.
+  - apply Hfs. exact G.
+  - subst s'. unfold set_file. cbn [s_fs].
+    destruct (list_eq_dec string_dec (h_path h) q) as [Eq|Ne].
+    + subst q. rewrite G in R. contradiction.
+    + rewrite fs_get_set_other by exact Ne. exact G.
+Qed.
+
+Lemma install_files_keeps : forall b pkgs i me hs s acc s' acc' q n,
+  install_files b pkgs i me s acc hs = IOk (s', acc') ->
+  fs_get (s_fs s) q = Some n -> ~ repl b (Some n) -> fs_get (s_fs s') q = Some n.
+Proof.
+  induction hs as [|h hs IH]; intros s acc s' acc' q n H G NR; cbn in H.
+  - inv_ok H. exact G.
+  - destruct (step b pkgs i me s h) as [[s1 app]|e s1] eqn:S; [|discriminate].
+    eapply IH; [exact H | | exact NR]. eapply step_keeps; eauto.
+Qed.
+
+Lemma install_all_keeps : forall b pkgs todo i s done s' done' q n,
+  install_all b pkgs i s done todo = IOk (s', done') ->
+  fs_get (s_fs s) q = Some n -> ~ repl b (Some n) -> fs_get (s_fs s') q = Some n.
+Proof.
+  induction todo as [|me todo IH]; intros i s done s' done' q n H G NR; cbn in H.
+  - inv_ok H. exact G.
+  - destruct (install_files b pkgs i me s [] (p_files me)) as [[s1 files]|e s1] eqn:F; [|discriminate].
+    eapply IH; [exact H | | exact NR]. eapply install_files_keeps; eauto.
+Qed.
+
+(* ---- an invariant about every header appended to a package's list ---------- *)
+Definition rec_inv (Good : st -> nat -> hdr -> Prop) (s : st) (L : nat -> list hdr) : Prop :=
+  forall k x, In x (L k) -> Good s k x.
+
+Lemma rec_step : forall b pkgs (Good : st -> nat -> hdr -> Prop),
+  (forall i me s h s', step b pkgs i me s h = IOk (s', true) -> Good s' i h) ->
+  (forall i me s h s' app k x, step b pkgs i me s h = IOk (s', app) -> Good s k x -> Good s' k x) ->
+  forall i me s h s' app L acc,
+  rec_inv Good s (upd L i acc) ->
+  step b pkgs i me s h = IOk (s', app) ->
+  rec_inv Good s' (upd L i (if app then acc ++ [h] else acc)).
+Proof.
+  intros b pkgs Good Hnew Hkeep i me s h s' app L acc Hinv Hstep k x Hin.
+  unfold upd in Hin. destruct (Nat.eqb_spec k i) as [E|E].
+  - subst k. destruct app.
+    + apply in_app_or in Hin. destruct Hin as [Hin|[Hin|[]]].
+      * eapply Hkeep; [exact Hstep|]. apply Hinv. unfold upd. rewrite Nat.eqb_refl. exact Hin.
+      * subst x. eapply Hnew. exact Hstep.
+    + eapply Hkeep; [exact Hstep|]. apply Hinv. unfold upd. rewrite Nat.eqb_refl. exact Hin.
+  - eapply Hkeep; [exact Hstep|]. apply Hinv. unfold upd.
+    destruct (Nat.eqb_spec k i); [contradiction | exact Hin].
+Qed.
+
+Lemma rec_files : forall b pkgs (Good : st -> nat -> hdr -> Prop),
+  (forall i me s h s', step b pkgs i me s h = IOk (s', true) -> Good s' i h) ->
+  (forall i me s h s' app k x, step b pkgs i me s h = IOk (s', app) -> Good s k x -> Good s' k x) ->
+  forall i me hs s acc s' acc' L,
+  rec_inv Good s (upd L i acc) ->
+  install_files b pkgs i me s acc hs = IOk (s', acc') ->
+  rec_inv Good s' (upd L i acc').
+Proof.
+  intros b pkgs Good Hnew Hkeep i me.
+  induction hs as [|h hs IH]; intros s acc s' acc' L Hinv H; cbn in H.
+  - inv_ok H. exact Hinv.
+  - destruct (step b pkgs i me s h) as [[s1 app]|e s1] eqn:S; [|discriminate].
+    eapply IH; [|exact H]. eapply rec_step; eauto.
+Qed.
+
+Lemma rec_inv_ext : forall Good s L L', (forall k, L k = L' k) -> rec_inv Good s L -> rec_inv Good s L'.
+Proof. intros Good s L L' E H k x Hin. apply H. rewrite E. exact Hin. Qed.
+
+Lemma rec_all : forall b pkgs (Good : st -> nat -> hdr -> Prop),
+  (forall i me s h s', step b pkgs i me s h = IOk (s', true) -> Good s' i h) ->
+  (forall i me s h s' app k x, step b pkgs i me s h = IOk (s', app) -> Good s k x -> Good s' k x) ->
+  forall todo i s done s' done',
+  List.length done = i ->
+  rec_inv Good s (fun k => nth k done []) ->
+  install_all b pkgs i s done todo = IOk (s', done') ->
+  rec_inv Good s' (fun k => nth k done' []).
+Proof.
+  intros b pkgs Good Hnew Hkeep.
+  induction todo as [|me todo IH]; intros i s done s' done' Hl Hinv H; cbn in H.
+  - inv_ok H. exact Hinv.
+  - destruct (install_files b pkgs i me s [] (p_files me)) as [[s1 files]|e s1] eqn:F; [|discriminate].
+    eapply (IH (S i) s1 (done ++ [files])); [rewrite app_length; cbn; lia | | exact H].
+    apply rec_inv_ext with (L := upd (fun k => nth k done []) (List.length done) files); [intro k; apply upd_nth|].
+    rewrite Hl. eapply rec_files; [exact Hnew | exact Hkeep | | exact F].
+    eapply rec_inv_ext; [|exact Hinv]. intro k. unfold upd.
+    destruct (Nat.eqb_spec k i) as [E|E]; [|reflexivity].
+    subst k. rewrite nth_overflow by lia. reflexivity.
+Qed.
+
+Lemma rec_install : forall b pkgs init f (Good : st -> nat -> hdr -> Prop),
+  (forall i me s h s', step b pkgs i me s h = IOk (s', true) -> Good s' i h) ->
+  (forall i me s h s' app k x, step b pkgs i me s h = IOk (s', app) -> Good s k x -> Good s' k x) ->
+  install b pkgs init = RDone f ->
+  forall k x, In x (nth k (f_files f) []) -> Good {| s_fs := f_fs f; s_if := f_if f |} k x.
+Proof.
+  intros b pkgs init f Good Hnew Hkeep H. unfold install in H.
+  destruct (install_all b pkgs 0 {| s_fs := init; s_if := [] |} [] pkgs) as [[s all]|e s] eqn:A; [|discriminate].
+  inv_ok H. cbn [f_fs f_if f_files]. destruct s as [fs ifs]. cbn [s_fs s_if].
+  apply (rec_all b pkgs Good Hnew Hkeep pkgs 0 {| s_fs := init; s_if := [] |} [] _ all eq_refl); [|exact A].
+  intros k x Hin. destruct k; cbn in Hin; contradiction.
+Qed.
+
+(* every database entry is a header appended to that package's list *)
+Lemma db_entry_listed : forall b pkgs init f k entries h,
+  install b pkgs init = RDone f -> nth_error (f_db f) k = Some entries -> In h entries ->
+  In h (prune (f_if f) k (nth k (f_files f) [])) /\ In h (nth k (f_files f) []).
+Proof.
+  intros b pkgs init f k entries h H Hn Hin.
+  assert (Hdb : f_db f = db_from (f_if f) 0 (f_files f)).
+  { unfold install in H.
+    destruct (install_all b pkgs 0 {| s_fs := init; s_if := [] |} [] pkgs) as [[s all]|e s]; [|discriminate].
+    inv_ok H. reflexivity. }
+  rewrite Hdb in Hn. apply db_from_nth in Hn. cbn [Nat.add] in Hn. subst entries.
+  apply db_entries_sub in Hin. split; [exact Hin|]. unfold prune in Hin. apply filter_In in Hin. tauto.
+Qed.
+
+(* ---- the recorded KIND is true --------------------------------------------- *)
+Lemma mkdir_all_last : forall ps m perm m' q,
+  mkdir_all m ps perm = (m', None) -> In q ps -> exists md, fs_get m' q = Some (NDir md).
+Proof.
+  induction ps as [|p ps IH]; intros m perm m' q H Hin; [contradiction|]. cbn in H.
+  destruct (fs_get m p) as [x|] eqn:G.
+  - destruct x as [md|? ? ? ?|? ? ?|]; try discriminate.
+    destruct Hin as [E|Hin]; [|eapply IH; eauto].
+    subst q. exists md.
+    pose proof (mkdir_all_keeps ps m perm p (NDir md) G) as K. rewrite H in K. exact K.
+  - destruct Hin as [E|Hin]; [|eapply IH; eauto].
+    subst q. exists perm.
+    pose proof (mkdir_all_keeps ps (fs_set m p (NDir perm)) perm p (NDir perm) (fs_get_set_same _ _ _)) as K.
+    rewrite H in K. exact K.
+Qed.
+
+Lemma prefixes_from_last : forall rest acc, rest <> [] -> In (acc ++ rest) (prefixes_from acc rest).
+Proof.
+  induction rest as [|c rest IH]; intros acc H; [contradiction|]. cbn.
+  destruct rest as [|c' rest'].
+  - left. reflexivity.
+  - right. replace (acc ++ c :: c' :: rest') with ((acc ++ [c]) ++ c' :: rest') by (rewrite <- app_assoc; reflexivity).
+    apply IH. discriminate.
+Qed.
+Lemma prefixes_last : forall p, p <> [] -> In p (prefixes p).
+Proof. intros p H. unfold prefixes. apply (prefixes_from_last p [] H). Qed.
+
+Definition kind_true (s : st) (x : hdr) : Prop :=
+  match h_kind x with
+  | KDir => exists md, fs_get (s_fs s) (h_path x) = Some (NDir md)
+  | _ => match fs_get (s_fs s) (h_path x) with
+         | Some (NFile _ _ _ _) | Some (NSym _ _ _) => True
+         | _ => False
+         end
+  end.
+
+Lemma kind_true_new : forall b pkgs i me s h s',
+  h_path h <> [] -> step b pkgs i me s h = IOk (s', true) -> kind_true s' h.
+Proof.
+  intros b pkgs i me s h s' Hne H. unfold kind_true.
+  pose proof (step_trans2 _ _ _ _ _ _ _ _ H) as T.
+  destruct (h_kind h) eqn:K.
+  - (* KReg: written, kept, or identical: a file or link is there *)
+    unfold step in H. rewrite K in H. destruct (is_lazy b).
+    + unfold step_lazy_file in H. rewrite K in H. cbn match in H. apply need_dir_ok in H.
+      destruct (fs_get (s_fs s) (h_path h)) as [x|] eqn:G.
+      * destruct x as [m|gs md [j|] dt|tg [j|] lk|]; try discriminate.
+        -- destruct (decide_lazy (nth j pkgs no_pkg) me gs (h_sum h)); try discriminate; inv_ok H.
+           ++ rewrite G. exact I.
+           ++ cbn. rewrite fs_get_set_same. unfold file_node. rewrite K. exact I.
+        -- destruct dt; try discriminate. destruct (N.eqb gs (h_sum h)); try discriminate. inv_ok H. rewrite G. exact I.
+        -- destruct (decide_lazy (nth j pkgs no_pkg) me tg (h_sum h)); try discriminate; inv_ok H.
+           ++ rewrite G. exact I.
+           ++ cbn. rewrite fs_get_set_same. unfold file_node. rewrite K. exact I.
+      * inv_ok H. cbn. rewrite fs_get_set_same. unfold file_node. rewrite K. exact I.
+    + unfold step_stream_reg in H.
+      destruct (dir_state (s_fs s) (parent (h_path h))); try discriminate.
+      destruct (fs_get (s_fs s) (h_path h)) as [x|] eqn:G.
+      * destruct x as [m|gs md ow dt|tg ow lk|]; try discriminate.
+        destruct (decide_stream _ me (N.eqb gs (h_sum h))) as [[| |]| |]; try discriminate; inv_ok H.
+        -- rewrite G. exact I.
+        -- cbn. rewrite fs_get_set_same. unfold file_node. rewrite K. exact I.
+      * inv_ok H. cbn. rewrite fs_get_set_same. unfold file_node. rewrite K. exact I.
+  - (* KDir *)
+    unfold step in H. rewrite K in H. unfold step_dir in H.
+    destruct (mkdir_all (s_fs s) (prefixes (h_path h)) (perm_of (h_mode h))) as [m [e|]] eqn:M; try discriminate.
+    inv_ok H. cbn. eapply mkdir_all_last; [exact M|]. apply prefixes_last. exact Hne.
+  - (* KSym *)
+    unfold step in H. rewrite K in H. destruct (is_lazy b).
+    + unfold step_lazy_file in H. rewrite K in H.
+      match type of H with (if ?c then _ else _) = _ => destruct c eqn:SL end.
+      * inv_ok H.
+        destruct (dir_state (s_fs s') (parent (h_path h))); try discriminate.
+        destruct (fs_get (s_fs s') (h_path h)) as [x|]; try discriminate.
+        destruct x; try discriminate. exact I.
+      * clear SL. apply need_dir_ok in H.
+        destruct (fs_get (s_fs s) (h_path h)) as [x|] eqn:G.
+        -- destruct x as [m|gs md [j|] dt|tg [j|] lk|]; try discriminate.
+           ++ destruct (decide_lazy (nth j pkgs no_pkg) me gs (h_sum h)); try discriminate; inv_ok H.
+              ** rewrite G. exact I.
+              ** cbn. rewrite fs_get_set_same. unfold file_node. rewrite K. exact I.
+           ++ destruct dt; try discriminate. destruct (N.eqb gs (h_sum h)); try discriminate. inv_ok H. rewrite G. exact I.
+           ++ destruct (decide_lazy (nth j pkgs no_pkg) me tg (h_sum h)); try discriminate; inv_ok H.
+              ** rewrite G. exact I.
+              ** cbn. rewrite fs_get_set_same. unfold file_node. rewrite K. exact I.
+        -- inv_ok H. cbn. rewrite fs_get_set_same. unfold file_node. rewrite K. exact I.
+    + unfold step_stream_sym in H. apply need_dir_ok in H.
+      destruct (fs_get (s_fs s) (h_path h)) as [x|] eqn:G.
+      * destruct x as [m|gs md ow dt|tg ow lk|]; try discriminate.
+        destruct (N.eqb tg (h_sum h)); discriminate.
+      * inv_ok H. cbn. rewrite fs_get_set_same. unfold file_node. rewrite K. exact I.
+  - (* KLink *)
+    unfold step in H. rewrite K in H. unfold step_link in H. apply need_dir_ok in H.
+    destruct (dir_state (s_fs s) (parent (h_link h))); try discriminate.
+    destruct (fs_get (s_fs s) (h_link h)) as [x|] eqn:G; try discriminate.
+    destruct x as [m|gs md ow dt|tg ow lk|]; try discriminate.
+    destruct (fs_get (s_fs s) (h_path h)) eqn:G2; try discriminate.
+    inv_ok H. cbn. rewrite fs_get_set_same. exact I.
+Qed.
+
+Lemma kind_true_keep : forall b pkgs i me s h s' app x,
+  step b pkgs i me s h = IOk (s', app) -> kind_true s x -> kind_true s' x.
+Proof.
+  intros b pkgs i me s h s' app x H Hx. unfold kind_true in *.
+  destruct (h_kind x) eqn:Kx.
+  1,3,4: destruct (step_trans2 _ _ _ _ _ _ _ _ H) as [E|_ Hfs _|E _ Hk _];
+    [ subst s'; exact Hx
+    | destruct (fs_get (s_fs s) (h_path x)) as [n|] eqn:G; [|contradiction];
+      rewrite (Hfs _ _ G); exact Hx
+    | subst s'; unfold set_file; cbn [s_fs];
+      destruct (list_eq_dec string_dec (h_path h) (h_path x)) as [Eq|Ne];
+      [ rewrite <- Eq, fs_get_set_same; unfold file_node; destruct Hk as [Hk|Hk]; rewrite Hk; exact I
+      | rewrite fs_get_set_other by exact Ne; exact Hx ] ].
+  destruct Hx as (md & G). exists md. eapply step_keeps; [exact H | exact G | exact (fun f => f)].
+Qed.
+
+(* every recorded entry exists with the recorded KIND (the database text tells
+   directories from everything else) *)
+Theorem db_kind_true : forall b pkgs init f,
+  install b pkgs init = RDone f ->
+  (forall h, In h (all_hdrs pkgs) -> h_path h <> []) ->
+  forall k entries h, nth_error (f_db f) k = Some entries -> In h entries ->
+    kind_true {| s_fs := f_fs f; s_if := f_if f |} h.
+Proof.
+  intros b pkgs init f H Hne k entries h Hn Hin.
+  destruct (db_entry_listed _ _ _ _ _ _ _ H Hn Hin) as [_ Hl].
+  assert (Hsub : listed_sub pkgs (f_files f)).
+  { unfold install in H.
+    destruct (install_all b pkgs 0 {| s_fs := init; s_if := [] |} [] pkgs) as [[s all]|e s] eqn:A; [|discriminate].
+    inv_ok H. cbn [f_files].
+    apply (listed_all b pkgs pkgs [] {| s_fs := init; s_if := [] |} [] s all eq_refl eq_refl); [|exact A].
+    intros j x Hx. destruct j; cbn in Hx; contradiction. }
+  pose (Good := fun (s : st) (k : nat) (x : hdr) => h_path x <> [] -> kind_true s x).
+  assert (G : Good {| s_fs := f_fs f; s_if := f_if f |} k h).
+  { apply (rec_install b pkgs init f Good); [| |exact H|exact Hl].
+    - intros i me s x s' Hs Hp. eapply kind_true_new; eauto.
+    - intros i me s x s' app k' y Hs Hy Hp. eapply kind_true_keep; [exact Hs|]. apply Hy. exact Hp. }
+  apply G. apply Hne. eapply in_nth_all_hdrs. apply Hsub. exact Hl.
+Qed.
+
+(* ---- symbolic-link entries on the streaming backends ----------------------- *)
+Theorem db_symlink_entries_stream : forall b pkgs init f,
+  is_lazy b = false -> install b pkgs init = RDone f ->
+  forall k entries h, nth_error (f_db f) k = Some entries -> In h entries -> h_kind h = KSym ->
+    fs_get (f_fs f) (h_path h) = Some (NSym (h_sum h) (Some k) (h_link h)).
+Proof.
+  intros b pkgs init f Lz H k entries h Hn Hin Hk.
+  destruct (db_entry_listed _ _ _ _ _ _ _ H Hn Hin) as [_ Hl].
+  pose (Good := fun (s : st) (k : nat) (x : hdr) =>
+    h_kind x = KSym -> fs_get (s_fs s) (h_path x) = Some (NSym (h_sum x) (Some k) (h_link x))).
+  apply (rec_install b pkgs init f Good) with (k := k) (x := h); [| |exact H|exact Hl|exact Hk].
+  - intros i me s x s' Hs Kx. unfold step in Hs. rewrite Kx, Lz in Hs.
+    unfold step_stream_sym in Hs. apply need_dir_ok in Hs.
+    destruct (fs_get (s_fs s) (h_path x)) as [y|] eqn:G.
+    + destruct y as [m|gs md ow dt|tg ow lk|]; try discriminate.
+      destruct (N.eqb tg (h_sum x)); discriminate.
+    + inv_ok Hs. cbn. rewrite fs_get_set_same. unfold file_node. rewrite Kx. reflexivity.
+  - intros i me s x s' app k' y Hs Hy Ky. eapply step_keeps; [exact Hs | exact (Hy Ky) |].
+    cbn. rewrite Lz. discriminate.
+Qed.
+
+(* on tarfs the same statement is false (finding C07-F5): a and b of one origin
+   ship usr/bin/sx -> (2) and -> (3); b's link wins, a's entry stays recorded *)
+Definition wit_sx (t : N) : hdr :=
+  {| h_path := ["usr"; "bin"; "sx"]; h_kind := KSym; h_mode := 511; h_uid := 0; h_gid := 0; h_sum := t; h_link := [] |}.
+Lemma db_symlink_entry_stale_lazy : exists pkgs f entries,
+  install Lazy pkgs [] = RDone f /\ nth_error (f_db f) 0 = Some entries /\ In (wit_sx 2) entries /\
+  fs_get (f_fs f) ["usr"; "bin"; "sx"] = Some (NSym 3 (Some 1) []).
+Proof.
+  exists [ {| p_name := "a"; p_origin := "o"; p_replaces := []; p_files := wit_dirs ++ [wit_sx 2] |};
+           {| p_name := "b"; p_origin := "o"; p_replaces := []; p_files := wit_dirs ++ [wit_sx 3] |} ].
+  eexists _, _. split; [vm_compute; reflexivity|]. split; [vm_compute; reflexivity|].
+  split; [vm_compute; tauto | vm_compute; reflexivity].
+Qed.
+
+(* ---- hard-link entries: the recorded mode is the header's, the node is the
+   target's (finding C07-F9) ----------------------------------------------- *)
+Definition wit_l (m : N) : hdr :=
+  {| h_path := ["usr"; "bin"; "l"]; h_kind := KReg; h_mode := m; h_uid := 0; h_gid := 0; h_sum := 2; h_link := [] |}.
+Definition wit_ln : hdr :=
+  {| h_path := ["usr"; "bin"; "l.ln"]; h_kind := KLink; h_mode := 493; h_uid := 0; h_gid := 0; h_sum := 0; h_link := ["usr"; "bin"; "l"] |}.
+Lemma db_hardlink_mode_witness : forall b, exists f entries n,
+  install b [ {| p_name := "c"; p_origin := "c"; p_replaces := []; p_files := wit_dirs ++ [wit_l 384] |};
+              {| p_name := "d"; p_origin := "d"; p_replaces := []; p_files := wit_dirs ++ [wit_l 493; wit_ln] |} ] [] = RDone f /\
+  nth_error (f_db f) 1 = Some entries /\ In wit_ln entries /\
+  fs_get (f_fs f) (h_path wit_ln) = Some n /\ node_perm n <> perm_of (h_mode wit_ln).
+Proof.
+  intro b. destruct b; eexists _, _, _;
+    (split; [vm_compute; reflexivity|]); (split; [vm_compute; reflexivity|]);
+    (split; [vm_compute; tauto|]); (split; [vm_compute; reflexivity|]); vm_compute; discriminate.
+Qed.
+
+(* ---- a header that survives pruning is written when the package ships (and so
+   installs) a directory header for every ancestor ------------------------- *)
+Lemma install_files_dirs_appended : forall b pkgs i me hs s acc s' acc' d,
+  install_files b pkgs i me s acc hs = IOk (s', acc') -> In d hs -> h_kind d = KDir -> In d acc'.
+Proof.
+  assert (Mono : forall b pkgs i me hs s acc s' acc' x,
+            install_files b pkgs i me s acc hs = IOk (s', acc') -> In x acc -> In x acc').
+  { induction hs as [|h hs IH]; intros s acc s' acc' x H Hx; cbn in H.
+    - inv_ok H. exact Hx.
+    - destruct (step b pkgs i me s h) as [[s1 app]|e s1]; [|discriminate].
+      eapply IH; [exact H|]. destruct app; [apply in_or_app; left|]; exact Hx. }
+  induction hs as [|h hs IH]; intros s acc s' acc' d H Hin Hk; [contradiction|]. cbn in H.
+  destruct (step b pkgs i me s h) as [[s1 app]|e s1] eqn:S; [|discriminate].
+  destruct Hin as [E|Hin]; [|eapply IH; eauto].
+  subst d. eapply Mono; [exact H|].
+  assert (app = true).
+  { unfold step in S. rewrite Hk in S. unfold step_dir in S.
+    destruct (mkdir_all (s_fs s) (prefixes (h_path h)) (perm_of (h_mode h))) as [m [e|]]; [discriminate|].
+    inv_ok S. reflexivity. }
+  subst app. apply in_or_app. right. left. reflexivity.
+Qed.
+
+Lemma install_all_dirs_appended : forall b pkgs todo i s done s' done' j me d,
+  install_all b pkgs i s done todo = IOk (s', done') -> List.length done = i ->
+  nth_error todo j = Some me -> In d (p_files me) -> h_kind d = KDir ->
+  In d (nth (i + j) done' []).
+Proof.
+  assert (Keep : forall b pkgs todo i s done s' done' k,
+            install_all b pkgs i s done todo = IOk (s', done') -> k < List.length done ->
+            nth k done' [] = nth k done []).
+  { induction todo as [|me todo IH]; intros i s done s' done' k H Hk; cbn in H.
+    - inv_ok H. reflexivity.
+    - destruct (install_files b pkgs i me s [] (p_files me)) as [[s1 files]|e s1]; [|discriminate].
+      rewrite (IH _ _ _ _ _ k H) by (rewrite app_length; cbn; lia). apply app_nth1. exact Hk. }
+  induction todo as [|x todo IH]; intros i s done s' done' j me d H Hl Hj Hin Hk; [destruct j; discriminate|].
+  subst i. cbn in H. destruct (install_files b pkgs (List.length done) x s [] (p_files x)) as [[s1 files]|e s1] eqn:F; [|discriminate].
+  destruct j as [|j]; cbn in Hj.
+  - inv_ok Hj. rewrite Nat.add_0_r.
+    rewrite (Keep _ _ _ _ _ _ _ _ (List.length done) H) by (rewrite app_length; cbn; lia).
+    rewrite app_nth2 by lia. rewrite Nat.sub_diag. cbn.
+    eapply install_files_dirs_appended; eauto.
+  - replace (List.length done + S j) with (S (List.length done) + j) by lia.
+    eapply IH; [exact H | rewrite app_length; cbn; lia | exact Hj | exact Hin | exact Hk].
+Qed.
+
+Lemma is_dir_hdr_in : forall files q d, In d files -> h_path d = q -> h_kind d = KDir -> is_dir_hdr files q = true.
+Proof.
+  intros files q d Hin Hp Hk. unfold is_dir_hdr. apply existsb_exists. exists d. split; [exact Hin|].
+  rewrite Hp, path_eqb_refl, Hk. reflexivity.
+Qed.
+
+Lemma prefixes_from_nonempty : forall rest acc q, In q (prefixes_from acc rest) -> q <> [].
+Proof.
+  induction rest as [|c rest IH]; intros acc q H; cbn in H; [contradiction|].
+  destruct H as [H|H]; [subst q; destruct acc; discriminate | eapply IH; exact H].
+Qed.
+
+Lemma db_from_nth_error : forall ifs all i k,
+  k < List.length all -> nth_error (db_from ifs i all) k = Some (db_entries ifs (i + k) (nth k all [])).
+Proof.
+  induction all as [|x all IH]; intros i k Hk; [cbn in Hk; lia|].
+  destruct k as [|k]; cbn.
+  - rewrite Nat.add_0_r. reflexivity.
+  - rewrite IH by (cbn in Hk; lia). rewrite Nat.add_succ_comm. reflexivity.
+Qed.
+
+Theorem pruned_header_written : forall b pkgs init f k me h,
+  install b pkgs init = RDone f ->
+  nth_error pkgs k = Some me ->
+  In h (prune (f_if f) k (nth k (f_files f) [])) ->
+  (2 <= List.length (h_path h))%nat ->
+  (* the package ships a directory header for every ancestor *)
+  (forall q, In q (prefixes (parent (h_path h))) -> exists d, In d (p_files me) /\ h_path d = q /\ h_kind d = KDir) ->
+  exists entries, nth_error (f_db f) k = Some entries /\ In h entries.
+Proof.
+  intros b pkgs init f k me h H Hk Hin Hlen Hdirs.
+  assert (HA : exists s all, install_all b pkgs 0 {| s_fs := init; s_if := [] |} [] pkgs = IOk (s, all) /\
+                 f_files f = all /\ f_if f = s_if s /\ f_fs f = s_fs s /\ f_db f = db_from (s_if s) 0 all).
+  { unfold install in H.
+    destruct (install_all b pkgs 0 {| s_fs := init; s_if := [] |} [] pkgs) as [[s all]|e s] eqn:A; [|discriminate].
+    inv_ok H. exists s, all. repeat split; reflexivity. }
+  destruct HA as (s & all & A & Ef & Ei & Efs & Edb).
+  (* every ancestor's directory header is in the appended list and survives pruning *)
+  assert (Hanc : forall q, In q (prefixes (parent (h_path h))) ->
+             is_dir_hdr (prune (f_if f) k (nth k (f_files f) [])) q = true).
+  { intros q Hq. destruct (Hdirs q Hq) as (d & Hd & Hp & Hkd).
+    assert (Happ : In d (nth k (f_files f) [])).
+    { rewrite Ef. apply (install_all_dirs_appended b pkgs pkgs 0 _ [] s all k me d A eq_refl Hk Hd Hkd). }
+    apply is_dir_hdr_in with (d := d); [|exact Hp|exact Hkd].
+    unfold prune. apply filter_In. split; [exact Happ|]. rewrite Hkd. reflexivity. }
+  exists (db_entries (f_if f) k (nth k (f_files f) [])). split.
+  - rewrite Edb, <- Ei, <- Ef.
+    assert (Lk : k < List.length (f_files f)).
+    { destruct (Nat.lt_ge_cases k (List.length (f_files f))) as [L|L]; [exact L|].
+      rewrite nth_overflow in Hin by exact L. contradiction. }
+    rewrite (db_from_nth_error (f_if f) (f_files f) 0 k Lk). reflexivity.
+  - unfold db_entries. apply filter_In. split; [exact Hin|].
+    unfold emitted. destruct (h_path h) as [|c1 [|c2 rest]] eqn:P; cbn in Hlen; try lia.
+    apply forallb_forall. intros q Hq. apply Hanc. exact Hq.
+Qed.
+
+Theorem db_hardlink_mode_refuted : forall b,
+  ~ (forall pkgs init f, install b pkgs init = RDone f ->
+       forall k entries h, nth_error (f_db f) k = Some entries -> In h entries -> h_kind h = KLink ->
+         exists n, fs_get (f_fs f) (h_path h) = Some n /\ node_perm n = perm_of (h_mode h)).
+Proof.
+  intros b H. destruct (db_hardlink_mode_witness b) as (f & entries & n & A & B & C & D & E).
+  destruct (H _ _ _ A 1 entries wit_ln B C eq_refl) as (n' & G & Pm).
+  rewrite D in G. inv_ok G. contradiction.
+Qed.
+
+(* with path resolution the recorded kind can be false (finding C07-F11): a
+   ships usr/bin/x -> ../lib, b ships the directory usr/bin/x; MkdirAll follows
+   the link, b's directory entry is recorded over a's link *)
+Definition wit_usr_lib : hdr :=
+  {| h_path := ["usr"; "lib"]; h_kind := KDir; h_mode := 493; h_uid := 0; h_gid := 0; h_sum := 0; h_link := [] |}.
+Definition wit_x_link : hdr :=
+  {| h_path := ["usr"; "bin"; "x"]; h_kind := KSym; h_mode := 511; h_uid := 0; h_gid := 0; h_sum := 3; h_link := [".."; "lib"] |}.
+Definition wit_x_dir : hdr :=
+  {| h_path := ["usr"; "bin"; "x"]; h_kind := KDir; h_mode := 493; h_uid := 0; h_gid := 0; h_sum := 0; h_link := [] |}.
+Lemma db_kind_links_witness : forall b, exists f entries,
+  install_l b [ {| p_name := "a"; p_origin := "a"; p_replaces := []; p_files := wit_dirs ++ [wit_usr_lib; wit_x_link] |};
+                {| p_name := "b"; p_origin := "b"; p_replaces := []; p_files := wit_dirs ++ [wit_x_dir] |} ] [] = RDone f /\
+  nth_error (f_db f) 1 = Some entries /\ In wit_x_dir entries /\
+  fs_get (f_fs f) ["usr"; "bin"; "x"] = Some (NSym 3 (Some 0) [".."; "lib"]).
+Proof.
+  intro b. destruct b; eexists _, _;
+    (split; [vm_compute; reflexivity|]); (split; [vm_compute; reflexivity|]);
+    (split; [vm_compute; tauto | vm_compute; reflexivity]).
+Qed.
+
+(* ---- the tie to the source text (Generated/C07Install.v, Generated/FsConsts.v) *)
+Definition out_of_decision (d : decision) : cout :=
+  match d with KeepOld => OKeep | Overwrite => OOverwrite | Conflict => OConflict end.
+Definition out_of_sdecision (d : sdecision) : cout :=
+  match d with SDec d => out_of_decision d | SErrExists => OSameError | SErrNotOurs => ONewError end.
+
+(* the facts the tests of writeHeader look at *)
+Definition env_lazy (got want : pkg) (gs ws : N) : cenv :=
+  {| e_same_sum := N.eqb gs ws; e_old_declares_new := declares got want; e_new_declares_old := declares want got;
+     e_same_origin := String.eqb (p_origin got) (p_origin want); e_new_origin_empty := String.eqb (p_origin want) "";
+     e_old_unknown := false; e_other_error := false |}.
+(* ... and those of installRegularFile once the error is a FileExistsError *)
+Definition env_stream (owner : option pkg) (want : pkg) (same : bool) : cenv :=
+  {| e_same_sum := same;
+     e_old_declares_new := match owner with Some pk => declares pk want | None => false end;
+     e_new_declares_old := match owner with Some pk => declares want pk | None => false end;
+     e_same_origin := match owner with Some pk => String.eqb (p_origin pk) (p_origin want) | None => false end;
+     e_new_origin_empty := String.eqb (p_origin want) "";
+     e_old_unknown := match owner with None => true | Some _ => false end;
+     e_other_error := false |}.
+
+Lemma lazy_rows_are_source : forall got want gs ws,
+  crun (env_lazy got want gs ws) c07_writeheader_rows c07_writeheader_default =
+  out_of_decision (decide_lazy got want gs ws).
+Proof.
+  intros got want gs ws. unfold decide_lazy, env_lazy. cbn.
+  destruct (N.eqb gs ws), (declares got want), (declares want got),
+    (String.eqb (p_origin got) (p_origin want)); reflexivity.
+Qed.
+
+Lemma stream_rows_are_source : forall owner want same,
+  crun (env_stream owner want same) c07_installregular_rows c07_installregular_default =
+  out_of_sdecision (decide_stream owner want same).
+Proof.
+  intros owner want same. unfold decide_stream, env_stream. cbn.
+  destruct (String.eqb (p_origin want) ""), same; try reflexivity;
+  destruct owner as [pk|]; try reflexivity;
+  destruct (declares pk want), (declares want pk), (String.eqb (p_origin pk) (p_origin want)); reflexivity.
+Qed.
+
+(* writeOneFile creates a NEW file with the header's mode: the name is tested
+   with Stat, an allowed overwrite removes the old entry first, and the file is
+   opened O_CREATE|O_EXCL without O_TRUNC/O_APPEND (what [set_file] transcribes:
+   the node is replaced, not rewritten in place) *)
+Definition has_flag (f : string) (fl : list string) : bool := existsb (String.eqb f) fl.
+Definition creates_fresh_node (exists_test : string) (flags : list string) (removes : bool) : bool :=
+  String.eqb exists_test "Stat" && has_flag "O_CREATE" flags && has_flag "O_EXCL" flags &&
+  negb (has_flag "O_TRUNC" flags) && negb (has_flag "O_APPEND" flags) && removes.
+Lemma write_one_file_creates_fresh :
+  creates_fresh_node c07_wof_exists_test c07_wof_open_flags c07_wof_removes_before_create = true.
+Proof. vm_compute. reflexivity. Qed.
+
+(* installedFiles is updated for regular files only, on both install paths *)
+Definition kind_tar_name (k : kind) : string :=
+  match k with KReg => "TypeReg" | KDir => "TypeDir" | KSym => "TypeSymlink" | KLink => "TypeLink" end.
+Lemma tracked_kinds_are_source : forall (s : st) i h loc,
+  (s_if (set_file s i h) = if has_flag (kind_tar_name (h_kind h)) c07_lazy_tracked then if_set (s_if s) (h_path h) i else s_if s) /\
+  (s_if (set_file s i h) = if has_flag (kind_tar_name (h_kind h)) c07_stream_tracked then if_set (s_if s) (h_path h) i else s_if s) /\
+  s_if (set_at s i h loc) = s_if (set_file s i h).
+Proof. intros s i h loc. unfold set_file, set_at. destruct (h_kind h); cbn; repeat split; reflexivity. Qed.
+
+(* the database writer: permission mask and the two defaults its text leaves out
+   (the harness's own reader fills the same two values in) *)
+Lemma db_perm_is_source : forall m,
+  perm_of m = N.land m c07_db_perm_mask /\ c07_db_default_dir_perm = 493%N /\ c07_db_default_file_perm = 420%N.
+Proof. intro m. repeat split; reflexivity. Qed.
+
+(* the nesting limit of the path resolution is the one both in-memory
+   filesystems test in getNodeCountLinks and openFile *)
+Lemma max_links_is_source :
+  max_links = tarfs_getnode_depth /\ max_links = memfs_getnode_depth /\
+  max_links = tarfs_openfile_depth /\ max_links = memfs_openfile_depth.
+Proof. repeat split; reflexivity. Qed.
